@@ -142,46 +142,57 @@ class Prog:
             shapes += ["plain"]
         if dk == "F" and not is_typedef:
             shapes = ["ptr", "pp"]
-        shape = rng.choice(shapes)
-        name = name or self.fresh("T" if is_typedef else "v")
         base = mkq(quals, bty) if quals else bty
         # a qualified typedef name keeps the name under the qualifier
         if quals and bty[0] == "N":
             base = ("Q", frozenset(quals), bty)
         qtxt = "".join(QWORD[q] + " " for q in sorted(quals))
-        ptxt, pty = None, None
-        if shape in ("fptr", "func"):
-            # one parameter of a visible type (not array/function/void)
-            for _ in range(5):
-                ptxt, pty = self.base(avoid=name)
-                pd = self.den(pty)
-                if (pd[2][0] if pd[0] == "Q" else pd[0]) not in "AFV":
-                    break
-            else:
-                ptxt, pty = "int", ("B", 5)
         pre = ("typedef " if is_typedef else "") + qtxt + btxt + " "
-        if shape == "plain":
-            decl, ty = name, base
-        elif shape == "ptr":
-            decl, ty = "*" + name, ("P", base)
-        elif shape == "pp":
-            decl, ty = "**" + name, ("P", ("P", base))
-        elif shape == "ptrq":
-            decl, ty = "* const " + name, ("Q", frozenset("c"), ("P", base))
-        elif shape == "arr":
-            decl, ty = name + "[3]", ("A", base)
-        elif shape == "arrptr":
-            decl, ty = "*" + name + "[2]", ("A", ("P", base))
-        elif shape == "fptr":
-            decl, ty = "(*" + name + ")(int, " + ptxt + ")", ("P", ("F", base, [("B", 5), pty]))
-        else:
-            decl, ty = name + "(" + ptxt + ")", ("F", base, [pty])
-        off = len(self.text.encode()) + len(pre.encode()) + decl.index(name)
-        self.emit(pre + decl + ";\n")
-        if is_typedef:
-            self.dens[off] = self.den(ty)
-            self.scopes[-1][name] = (off, ty)
-        self.decls.append(("t" if is_typedef else "v", name, off, ty))
+        # several declarators may share the specifiers (each with a shape of its own): 'typedef B (*CB)(int, B), *PB, AB[3];'
+        ndecl = 1 if name is not None or rng.random() < 0.6 else rng.randint(2, 3)
+        if len(self.scopes) > 1 and not is_typedef and not quals and bty[0] == "N":
+            ndecl = 1          # 'T *a, *b;' in a block is read as an expression (C09's known finding: several declarators are never made ambiguous)
+        parts, recs, pos = [], [], 0
+        for k in range(ndecl):
+            shape = rng.choice(shapes)
+            nm = name if (k == 0 and name) else self.fresh("T" if is_typedef else "v")
+            ptxt, pty = None, None
+            if shape in ("fptr", "func"):
+                # one parameter of a visible type (not array/function/void)
+                for _ in range(5):
+                    ptxt, pty = self.base(avoid=nm)
+                    pd = self.den(pty)
+                    if (pd[2][0] if pd[0] == "Q" else pd[0]) not in "AFV":
+                        break
+                else:
+                    ptxt, pty = "int", ("B", 5)
+            if shape == "plain":
+                decl, ty = nm, base
+            elif shape == "ptr":
+                decl, ty = "*" + nm, ("P", base)
+            elif shape == "pp":
+                decl, ty = "**" + nm, ("P", ("P", base))
+            elif shape == "ptrq":
+                decl, ty = "* const " + nm, ("Q", frozenset("c"), ("P", base))
+            elif shape == "arr":
+                decl, ty = nm + "[3]", ("A", base)
+            elif shape == "arrptr":
+                decl, ty = "*" + nm + "[2]", ("A", ("P", base))
+            elif shape == "fptr":
+                decl, ty = "(*" + nm + ")(int, " + ptxt + ")", ("P", ("F", base, [("B", 5), pty]))
+            else:
+                decl, ty = nm + "(" + ptxt + ")", ("F", base, [pty])
+            recs.append((nm, ty, pos + decl.index(nm)))
+            parts.append(decl)
+            pos += len(decl.encode()) + 2
+        start = len(self.text.encode()) + len(pre.encode())
+        self.emit(pre + ", ".join(parts) + ";\n")
+        for nm, ty, rel in recs:
+            off = start + rel
+            if is_typedef:
+                self.dens[off] = self.den(ty)
+                self.scopes[-1][nm] = (off, ty)
+            self.decls.append(("t" if is_typedef else "v", nm, off, ty))
 
     def struct_def(self, tag=None):
         tag = tag or self.fresh("S")
